@@ -19,6 +19,7 @@ package rules
 //	         found to be this connection / absent (for the un-registration: found disconnected).
 //	R-C16-5  (c16_status.go) a registered connection does not look disconnected: soundness side
 //	         condition of the `registered.disconnected()` guard that R-C16-3 accepts in removeClient.
+//	R-C16-6  (c16_persist.go) persistence chain: topic change -> store() -> store channel -> put.
 //	R-C16-4  admin delete disconnects (E1): the HTTP handler deletes the stored session of each
 //	         listed id; watchDelete hands every deleted key (value nil) — and only those — to
 //	         deleteSession and keeps watching; deleteSession closes the registered client.
@@ -311,10 +312,11 @@ func c16(c *core.Ctx) string {
 	c.Rule("R-C16-3", "identity-guarded teardown: every operation keyed by client id reachable from a connection's teardown (readLoop incl. its deferred function, writeLoop) - delete of the live session, delete of the stored session, topicMgr.unsubscribe, delete from Broker.clients - runs with the broker lock held since the connection registered under that id was looked up, and only if that lookup found this very connection or nothing (un-registration: found it disconnected)")
 	c.Rule("R-C16-4", "admin delete disconnects: httpDeleteSessionHandler deletes sessionStoreKey(SessionID) from the store for each listed session; newBroker and reconnectWatcher start watchDelete; watchDelete calls deleteSession for exactly the entries with nil value, with an id derived from the key, never leaves the batch loop early and only stops watching on broker shutdown or after starting reconnectWatcher; deleteSession closes the client registered under the id unless none is registered or it is already disconnected")
 	c.Rule("R-C16-5", "a registered connection does not look disconnected: when R-C16-3 accepts `registered.disconnected()` as the guard of an un-registration, the status of a connection (constant propagation over the Client literal, atomic Store/Swap/CompareAndSwap of statusFlag and Client methods, through the constructor chain into handleConn) must make disconnected() false at the store into Broker.clients, and between that store and the read loop only a closing method may make it true")
+	c.Rule("R-C16-6", "persistence chain of a session: Session.subscribe/unsubscribe hand every change of info.Topics to store(); Session.store sends every successfully encoded snapshot on the store channel (directly or in a spawned function all of whose paths end in the send) and the send can only be abandoned for SessionManager.done - not by a default clause, a timeout or the session's own done channel, which is closed at every connection teardown; SessionManager.doStore puts every received snapshot under sessionStoreKey(key) and only ends on SessionManager.done")
 	c.NotDecided = []string{
 		"the interleavings themselves (the rules check lock/identity discipline, not schedules)",
 		"that Client.close eventually ends the TCP connection (the read loop notices only at its next packet or keep-alive deadline)",
-		"ordering of the asynchronous Session.store() writes and the watch event caused by a connection's own delDB",
+		"ordering of the asynchronous Session.store() hand-offs (two snapshots may reach the storage in the wrong order) and the watch event caused by a connection's own delDB",
 		"topic trie semantics (C14) and delivery (C15)",
 	}
 	c.Assumptions = append(c.Assumptions,
@@ -330,6 +332,7 @@ func c16(c *core.Ctx) string {
 	c16Teardown(env)
 	c16AdminDelete(env)
 	c16Status(env)
+	c16PersistRule(env)
 	return "Static shape rules on the MQTT session life cycle: the complete decision table of setSession over (connect.CleanSession, prev==nil, prev.cleanSession()) is extracted path-sensitively and compared with the table the property states; handleConn enters the read loop only with the session set and its topics resubscribed under the connection's id; every client-id-keyed operation statically reachable from a connection's teardown is required to be guarded, under the broker lock, by a test that the connection registered under the id is still this one (otherwise a superseded connection's teardown destroys the new connection's session, stored copy, subscriptions or registration); the admin path store.delete → watchDelete → deleteSession → Client.close is connected for deleted keys only. Not decided: interleavings, timing of the actual socket close, asynchronous store ordering."
 }
 
